@@ -118,9 +118,12 @@ package tls
 
 // derive a PRNG from a seed and a salt (HKDF-SHA3 then newPRNGWithSeed, verif_contracts_roller.go)
 //@ func newSaltedPRNGSeed
-//@   property C09
+//@   property C09 C30
 //@   requires seed != nil
 //@   modifies nothing
+//@   at before call hkdf.New#0: assert whole_salt: len(arg2) == len(salt) && forall j in 0..len(salt): arg2[j] == salt[j]
+//@   at before call hkdf.New#0: assert whole_seed: len(arg1) == 32 && arr(arg1) == val(seed)
+//@   note whole_salt / whole_seed (C30: salted seeds differ across salts and seeds): the key-derivation function receives the complete salt string and the complete 32-byte seed
 //@   ensures ok: ret1 == nil ==> ret0 != nil && fresh(ret0)
 //@   ensures err: ret1 != nil ==> ret0 == nil
 
